@@ -246,7 +246,7 @@ def _fill(cls, i1, i2, b, s: str, st, ost, phase):
             kw[n] = ost
         elif n == "phase":
             kw[n] = phase
-        elif n in ("retry_count",):
+        elif n in ("retry_count",) or str(f.type).replace(" ", "") in ("int", "int|None", "Optional[int]"):
             kw[n] = i1
         elif n in ("purge_queue", "persistent"):
             kw[n] = b
